@@ -736,8 +736,9 @@ PTR_MEMBER = re.compile(r"^(?:const\s+)?([\w:]+(?:\s*<.*>)?)\s*\*\s*(?:const\s+)
 VEC_MEMBER = re.compile(r"^std::vector\s*<\s*(?:const\s+)?([\w:]+(?:\s*<.*>)?)\s*\*\s*>\s*(\w+)$", re.S)
 
 
-def class_unit(cls, hpp, cpp=None):
-    """description of class `cls` declared in header hpp (definitions inline or in cpp)"""
+def class_units(cls, hpp, cpp=None):
+    """descriptions of class `cls` declared in header hpp (definitions inline or in cpp): one per
+    non-delegating constructor -> [(suffix, Unit)]"""
     htext, hstr = strip_comments_and_strings(open(os.path.join(vlib.REPO, "src", hpp), encoding="utf-8").read())
     strings = list(hstr)
     ctext = None
@@ -747,10 +748,9 @@ def class_unit(cls, hpp, cpp=None):
         off = len(strings)
         ctext = re.sub(r"@S(\d+)@", lambda m: "@S%d@" % (int(m.group(1)) + off), ctext)
         strings += cstr
-    u = Unit(cls, strings)
     body = find_class_body(htext, cls)
     datas, funcs = class_members(body)
-    ptrs, vecs, decl_order = [], [], []
+    ptrs, vecs, decl_order, types = [], [], [], {}
     for d in datas:
         d = re.sub(r"^(?:static|mutable)\s+", "", d)
         mn = re.search(r"(\w+)\s*(?:\[[^\]]*\]\s*)?(?:=.*)?$", d, flags=re.S)
@@ -759,12 +759,12 @@ def class_unit(cls, hpp, cpp=None):
         m = PTR_MEMBER.match(d)
         if m:
             ptrs.append(m.group(2))
-            u.types[m.group(2)] = norm(m.group(1))
+            types[m.group(2)] = norm(m.group(1))
             continue
         m = VEC_MEMBER.match(d)
         if m:
             vecs.append(m.group(2))
-            u.types[m.group(2)] = norm(m.group(1))
+            types[m.group(2)] = norm(m.group(1))
             continue
         if "*" in d and "(" not in d:
             fail("%s: pointer-like data member not understood: %r" % (cls, d[:100]))
@@ -792,8 +792,7 @@ def class_unit(cls, hpp, cpp=None):
             if d is not None:
                 dtor = d[2]
     if dtor is None:
-        if ptrs or vecs:
-            dtor = ""   # implicit destructor: deletes nothing
+        dtor = ""   # implicit (or only declared) destructor: deletes nothing
     primary, delegating = [], []
     for c in ctors:
         if c[2] is None:
@@ -802,61 +801,78 @@ def class_unit(cls, hpp, cpp=None):
             delegating.append(c)
         else:
             primary.append(c)
-    if len(primary) != 1:
-        fail("%s: expected exactly one non-delegating constructor, found %d" % (cls, len(primary)))
-    params, inits, cbody = primary[0]
-    inits = inits or []
-    pnames = param_names(params)
-    alltext = cbody + "\n" + dtor
-    # owned or borrowed?
-    init_of = dict(inits)
+    if not primary:
+        fail("%s: no non-delegating constructor found" % cls)
+    # owned or borrowed?  (decided over all constructors together)
+    allc = "\n".join(c[2] for c in primary) + "\n" + dtor
+    scalars, borrowed, vectors = [], [], []
     for x in ptrs:
         ex = re.escape(x)
-        deleted = re.search(r"\bdelete\b(\s*\[\s*\])?\s*%s\b" % ex, alltext)
-        assigned = re.search(r"(?<![\w.>])%s\s*=(?!=)" % ex, alltext)
-        if not deleted and not assigned and x in init_of and init_of[x] in pnames:
-            u.borrowed.append(x)
+        deleted = re.search(r"\bdelete\b(\s*\[\s*\])?\s*%s\b" % ex, allc)
+        assigned = re.search(r"(?<![\w.>])%s\s*=(?!=)" % ex, allc)
+        from_param = all((x in dict(c[1] or [])) and dict(c[1] or [])[x].strip() in param_names(c[0]) for c in primary)
+        if not deleted and not assigned and from_param:
+            borrowed.append(x)
         else:
-            u.scalars.append(x)
+            scalars.append(x)
     for x in vecs:
         ex = re.escape(x)
-        if re.search(r"\bdelete\b\s*%s\b" % ex, alltext) or re.search(r"(?<![\w.>])%s\s*\[[^\]]*\]\s*=(?!=)\s*(new\b|\w+Factory::)" % ex, alltext) \
+        if re.search(r"\bdelete\b\s*%s\b" % ex, allc) or re.search(r"(?<![\w.>])%s\s*\[[^\]]*\]\s*=(?!=)\s*(new\b|\w+Factory::)" % ex, allc) \
            or re.search(r"(?<![\w.>])%s\s*\.\s*push_back" % ex, body + (ctext or "")):
-            u.vectors.append(x)
-    # constructor: implicit default construction of vectors, initialiser list in DECLARATION order
-    ctor_ir = [("setNull", u.fidx(x)) for x in u.vectors]
-    # C++ runs the member initialisers in DECLARATION order, whatever the order in the list
-    order = {name: i for i, name in enumerate(decl_order)}
-    member_inits = dict(inits)
-    for (name, expr) in sorted(inits, key=lambda it: order.get(it[0], -1)):
-        if name in u.vectors:
-            fail("%s: vector field %s has an initialiser" % (cls, name))
-        if name in u.fields:
-            ctor_ir.append(u.rhs_ir(u.fidx(name), expr, "initialiser list"))
+            vectors.append(x)
+    res = []
+    for (params, inits, cbody) in primary:
+        u = Unit(cls, strings)
+        u.types = dict(types)
+        u.scalars, u.vectors, u.borrowed = list(scalars), list(vectors), list(borrowed)
+        inits = inits or []
+        pnames = param_names(params)
+        # constructor: implicit default construction of vectors, then the member initialisers:
+        # C++ runs them in DECLARATION order, whatever the order in the list
+        ctor_ir = [("setNull", u.fidx(x)) for x in u.vectors]
+        order = {name: i for i, name in enumerate(decl_order)}
+        member_inits = dict(inits)
+        for (name, expr) in sorted(inits, key=lambda it: order.get(it[0], -1)):
+            if name in u.vectors:
+                fail("%s: vector field %s has an initialiser" % (cls, name))
+            if name in u.fields:
+                ctor_ir.append(u.rhs_ir(u.fidx(name), expr, "initialiser list"))
+            else:
+                u.check_no_escape(expr, "initialiser of " + name)
+                ctor_ir += u.uses_in(expr)
+        ctor_ir.append(u.list_ir(parse_list(cbody), top=True))
+        dtor_ir = u.list_ir(parse_list(dtor), top=True)
+        u.ctor, used = simplify(seq(ctor_ir))
+        u.dtor, _ = simplify(dtor_ir, used)
+        # option -> parameter file key, through a delegating constructor with as many arguments
+        u.optkeys = {}
+        for dc in delegating:
+            dargs = split_top(dc[1][0][1], ",")
+            if norm(dc[2]):
+                fail("%s: delegating constructor has a body" % cls)
+            if len(dargs) == len(pnames):
+                for o in u.opts:
+                    src = member_inits.get(o, o).strip()
+                    if src in pnames:
+                        arg = dargs[pnames.index(src)]
+                        mk = re.search(r'get_value\s*<\s*bool\s*>\s*\(\s*"(@S\d+@)"\s*,\s*(true|false)\s*\)', arg)
+                        if mk:
+                            u.optkeys[o] = (restore_strings(mk.group(1), strings), mk.group(2) == "true")
+        u.files = [hpp] + ([cpp] if cpp else [])
+        u.ctor_params = norm(params)
+        res.append(u)
+    if len(res) == 1:
+        return [("", res[0])]
+    out, k = [], 0
+    for u in res:
+        if re.fullmatch(r"RestartReader&\w+", u.ctor_params):
+            out.append(("Restart", u))
         else:
-            u.check_no_escape(expr, "initialiser of " + name)
-            ctor_ir += u.uses_in(expr)
-    # options that are members initialised from constructor parameters keep the member name
-    ctor_ir.append(u.list_ir(parse_list(cbody), top=True))
-    dtor_ir = u.list_ir(parse_list(dtor), top=True)
-    u.ctor, used = simplify(seq(ctor_ir))
-    u.dtor, _ = simplify(dtor_ir, used)
-    # option -> parameter file key, through the delegating constructor (if any)
-    u.optkeys = {}
-    if delegating:
-        dargs = split_top(delegating[0][1][0][1], ",")
-        if norm(delegating[0][2]):
-            fail("%s: delegating constructor has a body" % cls)
-        if len(dargs) == len(pnames):
-            for o in u.opts:
-                src = member_inits.get(o, o).strip()
-                if src in pnames:
-                    arg = dargs[pnames.index(src)]
-                    mk = re.search(r'get_value\s*<\s*bool\s*>\s*\(\s*"(@S\d+@)"\s*,\s*(true|false)\s*\)', arg)
-                    if mk:
-                        u.optkeys[o] = (restore_strings(mk.group(1), strings), mk.group(2) == "true")
-    u.files = [hpp] + ([cpp] if cpp else [])
-    return u
+            out.append(("" if k == 0 else "Alt%d" % k, u))
+            k += 1
+    if len(set(sfx for sfx, _ in out)) != len(out):
+        fail("%s: constructors cannot be told apart" % cls)
+    return out
 
 
 def function_unit(name, cpp, qual):
@@ -974,22 +990,31 @@ def count_nodes(ir):
 
 
 UNITS = [
-    ("liveOutputManager", lambda: class_unit("LiveOutputManager", "LiveOutputManager.hpp")),
-    ("trackerManager", lambda: class_unit("TrackerManager", "TrackerManager.hpp")),
-    ("taskBasedIonizationSimulation", lambda: class_unit("TaskBasedIonizationSimulation", "TaskBasedIonizationSimulation.hpp",
-                                                         "TaskBasedIonizationSimulation.cpp")),
-    ("rhdSimulation", lambda: function_unit("TaskBasedRadiationHydrodynamicsSimulation::do_simulation",
-                                            "TaskBasedRadiationHydrodynamicsSimulation.cpp",
-                                            "TaskBasedRadiationHydrodynamicsSimulation::do_simulation")),
+    ("liveOutputManager", lambda: class_units("LiveOutputManager", "LiveOutputManager.hpp")),
+    ("trackerManager", lambda: class_units("TrackerManager", "TrackerManager.hpp")),
+    ("taskBasedIonizationSimulation", lambda: class_units("TaskBasedIonizationSimulation", "TaskBasedIonizationSimulation.hpp",
+                                                          "TaskBasedIonizationSimulation.cpp")),
+    ("rhdSimulation", lambda: [("", function_unit("TaskBasedRadiationHydrodynamicsSimulation::do_simulation",
+                                                  "TaskBasedRadiationHydrodynamicsSimulation.cpp",
+                                                  "TaskBasedRadiationHydrodynamicsSimulation::do_simulation"))]),
+    ("uniformRandomPSD", lambda: class_units("UniformRandomPhotonSourceDistribution", "UniformRandomPhotonSourceDistribution.hpp")),
+    ("discPatchPSD", lambda: class_units("DiscPatchPhotonSourceDistribution", "DiscPatchPhotonSourceDistribution.hpp")),
+    ("caproniPSD", lambda: class_units("CaproniPhotonSourceDistribution", "CaproniPhotonSourceDistribution.hpp")),
 ]
+# every description that must exist (a constructor that disappears is reported, not ignored)
+EXPECTED = ["liveOutputManager", "trackerManager", "taskBasedIonizationSimulation", "rhdSimulation",
+            "uniformRandomPSD", "uniformRandomPSDRestart", "discPatchPSD", "discPatchPSDRestart",
+            "caproniPSD", "caproniPSDRestart"]
 
 
 def generate():
     """-> dict(units={leanname: info}, changed=bool); raises GenError when it cannot parse"""
     units = {}
     L = ["/- GENERATED by tools/gen_c12_lifecycle.py from /repo's src/LiveOutputManager.hpp,",
-         "   src/TrackerManager.hpp, src/TaskBasedIonizationSimulation.{hpp,cpp} and",
-         "   src/TaskBasedRadiationHydrodynamicsSimulation.cpp — DO NOT EDIT (rewritten on every run).",
+         "   src/TrackerManager.hpp, src/TaskBasedIonizationSimulation.{hpp,cpp},",
+         "   src/TaskBasedRadiationHydrodynamicsSimulation.cpp and the three random photon source",
+         "   distributions (one description per non-delegating constructor) — DO NOT EDIT (rewritten",
+         "   on every run).",
          "   Pointer tests stay pointer tests; every other condition is a numbered option (names in",
          "   `opts`); a factory call is `new` or `nullptr` depending on an option named",
          "   \"<field>:=<factory>\". -/",
@@ -999,8 +1024,9 @@ def generate():
          ""]
     H = ["// GENERATED by tools/gen_c12_lifecycle.py - do not edit",
          "#ifndef C12_GEN_HPP", "#define C12_GEN_HPP"]
-    for (lname, mk) in UNITS:
-        u = mk()
+    names = []
+    for (lname, u) in [(base + sfx, u) for (base, mk) in UNITS for (sfx, u) in mk()]:
+        names.append(lname)
         if not u.fields:
             fail("%s: no owned pointer field found" % u.name)
         bad = ir_fields(seq([u.ctor, u.dtor])) - set(range(len(u.fields)))
@@ -1031,7 +1057,9 @@ def generate():
         H.append("static const char *const c12_%s_optkeys[] = {%s};" % (lname, ", ".join(
             cpp_str(u.optkeys[o][0]) if o in u.optkeys else "nullptr" for o in u.opts) or "nullptr"))
         H.append("static const int c12_%s_nopts = %d;" % (lname, len(u.opts)))
-    L.append("def all : List ClassDesc := [%s]" % ", ".join(n for n, _ in UNITS))
+    if names != EXPECTED:
+        fail("descriptions found %s, expected %s (a constructor appeared or disappeared)" % (names, EXPECTED))
+    L.append("def all : List ClassDesc := [%s]" % ", ".join(names))
     L.append("")
     L.append("end CMacVerif.Gen.Lifecycle")
     H.append("#endif")
